@@ -201,21 +201,25 @@ def divide_pairs(dump_path: str):
     return pairs, {"pairs": len(pairs)}
 
 
-def _tla_poly(f):
-    """TLA+ function <<e0,e1>> -> <<n,d>> (or <<>> for zero) to a 0-d float polynomial in q0, q1."""
+def _tla_poly(f, integer=False):
+    """TLA+ function <<e0,e1>> -> <<n,d>> (or <<>> for zero) to a 0-d polynomial in q0, q1: float64, or int64 when
+    `integer` is asked for and every coefficient is a whole number."""
     if not f:
         rows, coefs = [[0, 0]], [[0.0]]
     else:
         rows = [list(k) for k in f]
         coefs = [[v[0] / v[1]] for v in f.values()]
+    if integer and all(float(c[0]).is_integer() for c in coefs):
+        return build_poly({"shape": [], "names": [0, 1], "rows": rows, "coefs": [[int(c[0])] for c in coefs], "dtype": "int64"})
     return build_poly({"shape": [], "names": [0, 1], "rows": rows, "coefs": coefs, "dtype": "float64"})
 
 
 def run_divide_pair(pair, tid: str, prop: str, variant: int = 0) -> dict:
     reset_options()
     rec = Recorder(tid, prop, timeout_s=20.0)
-    n = rec.new(_tla_poly(pair["dividend"]), note="dividend")
-    d = rec.new(_tla_poly(pair["divisor"]), note="divisor")
+    # operand dtypes rotate: float/float, int/int, int/float, float/int (integer operands still have fractional quotients)
+    n = rec.new(_tla_poly(pair["dividend"], integer=(variant // 8) % 4 in (1, 2)), note="dividend")
+    d = rec.new(_tla_poly(pair["divisor"], integer=(variant // 8) % 4 in (1, 3)), note="divisor")
     fn = ("divmod", "divmod", "divide", "remainder")[variant % 4]
     sp = ("function", "operator")[(variant // 4) % 2]
     rec.do("polydiv", [n, d], keep=False, fn=fn, spelling=sp, capped=False, digs=[], iterations=0)
@@ -410,8 +414,12 @@ def reduce_vectors(dump_path: str):
 
 def shape_vectors(dump_path: str):
     out, _ = vectors(dump_path)
-    out = [v for v in out if v["kind"] in ("index", "transpose")]
+    out = [v for v in out if v["kind"] in ("index", "transpose", "join")]
     return out, {"vectors": len(out)}
+
+
+def gen_dtype(kind):
+    return {"int": "int64", "float": "float64", "complex": "complex128"}[kind]
 
 
 def run_shape_vector(vec, tid: str, prop: str, variant: int = 0) -> dict:
@@ -422,6 +430,37 @@ def run_shape_vector(vec, tid: str, prop: str, variant: int = 0) -> dict:
     rec = Recorder(tid, prop)
     rng = random.Random(variant)
     shape = tuple(vec["shape"])
+    if vec["kind"] == "join":
+        import numpy
+        names = ((0, 1), (0,), (1, 2))[variant % 3]
+        kind = ("int", "float")[(variant // 3) % 2]
+        spec = distinct_poly_spec(rng, shape, names=names, kind=kind)
+        ops = [rec.new(build_poly(spec))]
+        for j in range(1, vec["count"]):
+            fam = vec["family"]
+            if fam == "same":
+                other = dict(spec, coefs=[[c * (j + 1) for c in row] for row in spec["coefs"]])
+            elif fam == "twin":
+                other = dict(spec, names=[n + j for n in spec["names"]], coefs=[[c * (j + 1) for c in row] for row in spec["coefs"]])
+            elif fam == "terms":
+                other = distinct_poly_spec(rng, shape, names=names, kind=kind, tag=j + 2)
+            else:
+                size = int(numpy.prod(shape, dtype=int))
+                ops.append(rec.new(numpy.arange(j, j + size, dtype=gen_dtype(kind)).reshape(shape)))
+                continue
+            ops.append(rec.new(build_poly(other)))
+        fn = vec["fn"]
+        p = {"axis": vec["axis"]} if fn in ("concatenate", "stack") else {}
+        params = {"fn": fn, "p": p, "spelling": ("numpoly", "numpy")[variant % 2]}
+        try:
+            g = gather_map(params, [shape] * len(ops))
+        except Exception:
+            rec.meta["skipped"] = True
+            return rec.to_json()
+        model = model_of(fn, p, [shape] * len(ops))
+        rec.do("move", ops, gather=g, model=[model] if model else [], **params)
+        rec.meta["source"] = "MC_Shape"
+        return rec.to_json()
     a = rec.new(build_poly(distinct_poly_spec(rng, shape, names=(0, 1) if variant % 2 else (0,), kind="int")))
     if vec["kind"] == "transpose":
         fn, p = ("transpose", "transpose_method")[variant % 2], {"axes": [x - 1 for x in vec["perm"]]}
